@@ -15,7 +15,7 @@
    len(x) < 2^63, arrays of their declared length. *)
 From Coq Require Import List NArith ZArith Bool Lia ZifyN ZifyNat ZifyBool.
 Import ListNotations.
-From HV Require Import Lib.Bytes Lib.U64 Model.Fees Model.Prefixes Model.ValidityWindow Model.TxStatic Model.Estimate Model.Units Model.Keys.
+From HV Require Import Lib.Bytes Lib.U64 Model.Fees Proofs.Fees_proofs Model.Prefixes Model.ValidityWindow Model.TxStatic Model.Estimate Model.Units Model.Keys.
 From HV Require Import Gen.Prelude Gen.Leaf.
 Local Open Scope Z_scope.
 
@@ -520,11 +520,433 @@ Proof. intros H. rewrite units_max_chunks_eq. apply keys_MaxChunks_equiv. exact 
 Lemma keys_Valid_equiv_units (k : bytes) : keys_Valid (zs k) = Units.key_valid k.
 Proof. apply keys_Valid_equiv. Qed.
 
+(* ------------------------------------------------------------------ internal/window/window.go
+   A Window is [80]byte = 10 big-endian uint64; Model/Fees.v keeps the 10 slot values.
+   [win_bytes w] is the byte array of the slot list [w]. *)
+Definition win_bytes (w : window) : list Z := zs (flat_map be64 w).
+
+Lemma win_bytes_cons x w : win_bytes (x :: w) = zs (be64 x) ++ win_bytes w.
+Proof. unfold win_bytes. cbn [flat_map]. apply zs_app. Qed.
+
+Lemma win_bytes_app a b : win_bytes (a ++ b) = win_bytes a ++ win_bytes b.
+Proof. unfold win_bytes. rewrite flat_map_app. apply zs_app. Qed.
+
+Lemma zs_length l : length (zs l) = length l.
+Proof. apply map_length. Qed.
+
+Lemma zs_be64_length x : length (zs (be64 x)) = 8%nat.
+Proof. rewrite zs_length. apply be64_length. Qed.
+
+Lemma win_bytes_length w : length (win_bytes w) = (8 * length w)%nat.
+Proof.
+  induction w as [|x w IH]; [reflexivity|].
+  rewrite win_bytes_cons, app_length, zs_be64_length, IH. cbn [length]. lia.
+Qed.
+
+Lemma skipn_app_plus {A} (a b : list A) n m : length a = n -> skipn (n + m) (a ++ b) = skipn m b.
+Proof.
+  intros <-. rewrite skipn_app. rewrite skipn_all2 by lia.
+  replace (length a + m - length a)%nat with m by lia. reflexivity.
+Qed.
+
+Lemma firstn_app_plus {A} (a b : list A) n m : length a = n -> firstn (n + m) (a ++ b) = a ++ firstn m b.
+Proof.
+  intros <-. rewrite firstn_app. rewrite firstn_all2 by lia.
+  replace (length a + m - length a)%nat with m by lia. reflexivity.
+Qed.
+
+Lemma skipn_win k : forall w, skipn (8 * k) (win_bytes w) = win_bytes (skipn k w).
+Proof.
+  induction k as [|k IH]; intros w; [reflexivity|].
+  destruct w as [|x w]; [rewrite !skipn_nil; reflexivity|].
+  rewrite win_bytes_cons. replace (8 * S k)%nat with (8 + 8 * k)%nat by lia.
+  rewrite skipn_app_plus by apply zs_be64_length. cbn [skipn]. apply IH.
+Qed.
+
+Lemma firstn_win k : forall w, firstn (8 * k) (win_bytes w) = win_bytes (firstn k w).
+Proof.
+  induction k as [|k IH]; intros w; [reflexivity|].
+  destruct w as [|x w]; [rewrite !firstn_nil; reflexivity|].
+  rewrite win_bytes_cons. replace (8 * S k)%nat with (8 + 8 * k)%nat by lia.
+  rewrite firstn_app_plus by apply zs_be64_length. cbn [firstn]. rewrite win_bytes_cons, IH. reflexivity.
+Qed.
+
+(* x[lo:] of the byte array = the bytes of the slots from lo/8 on *)
+Lemma go_slice_win (w : window) (k : nat) :
+  go_slice (win_bytes w) (Z.of_nat (8 * k)) (go_len (win_bytes w)) = win_bytes (skipn k w).
+Proof.
+  unfold go_slice, go_len. rewrite Nat2Z.id, skipn_win. apply firstn_all2.
+  rewrite !win_bytes_length, skipn_length. lia.
+Qed.
+
+(* reading a big-endian uint64 *)
+Lemma be_uint_from_app (l1 l2 : list Z) : forall m acc,
+  be_uint_from (length l1 + m) (l1 ++ l2) acc = be_uint_from m l2 (fold_left (fun a b => a * 256 + b) l1 acc).
+Proof.
+  induction l1 as [|x l1 IH]; intros m acc; [reflexivity|].
+  cbn [length Nat.add app be_uint_from fold_left]. apply IH.
+Qed.
+
+Lemma fold_left_zs (l : list N) : forall a : N,
+  fold_left (fun a b => a * 256 + b) (zs l) (Z.of_N a) = Z.of_N (fold_left (fun acc b => acc * 256 + b)%N l a).
+Proof.
+  induction l as [|x l IH]; intros a; [reflexivity|].
+  cbn [zs map fold_left]. fold (zs l). rewrite <- IH. f_equal. lia.
+Qed.
+
+Lemma be_uint64_be64 (x : N) (rest : list Z) : (x <= MaxU64)%N ->
+  be_uint64 (zs (be64 x) ++ rest) = Z.of_N x.
+Proof.
+  intros Hx. unfold be_uint64.
+  change 8%nat with (8 + 0)%nat. rewrite <- (zs_be64_length x) at 1.
+  rewrite be_uint_from_app. cbn [be_uint_from].
+  change 0 with (Z.of_N 0). rewrite fold_left_zs.
+  change (fold_left (fun acc b : N => (acc * 256 + b)%N) (be64 x) 0%N) with (be_dec (be64 x)).
+  rewrite be64_roundtrip by exact Hx. reflexivity.
+Qed.
+
+(* writing a big-endian uint64 *)
+Lemma zs_be_enc n : forall v, zs (be_enc n v) = be_bytes n (Z.of_N v).
+Proof.
+  induction n as [|n IH]; intros v; [reflexivity|].
+  cbn [be_enc be_bytes]. rewrite zs_app, IH. f_equal.
+  - f_equal. rewrite Z.shiftr_div_pow2 by lia. rewrite N2Z.inj_div. reflexivity.
+  - unfold zs. cbn [map]. unfold wrap_u8, wrap_u. rewrite N2Z.inj_mod. reflexivity.
+Qed.
+
+Lemma go_range_cons lo hi : lo < hi -> go_range lo hi = lo :: go_range (lo + 1) hi.
+Proof.
+  intros H. unfold go_range.
+  replace (Z.to_nat (hi - lo)) with (S (Z.to_nat (hi - (lo + 1)))) by lia.
+  cbn [seq map]. f_equal; [lia|].
+  rewrite <- seq_shift, map_map. apply map_ext. intros k. lia.
+Qed.
+
+Lemma go_range_nil lo hi : hi <= lo -> go_range lo hi = [].
+Proof. intros H. unfold go_range. replace (Z.to_nat (hi - lo)) with 0%nat by lia. reflexivity. Qed.
+
+(* wsum_from with the overflow made explicit *)
+Fixpoint wsum_opt (l : list N) (acc : N) : option N :=
+  match l with
+  | [] => Some acc
+  | x :: l' => match add_chk acc x with None => None | Some s => wsum_opt l' s end
+  end.
+
+Lemma wsum_from_opt l : forall acc, wsum_from l acc = match wsum_opt l acc with Some s => s | None => MaxU64 end.
+Proof.
+  induction l as [|x l IH]; intros acc; [reflexivity|].
+  cbn [wsum_from wsum_opt]. destruct (add_chk acc x); [apply IH|reflexivity].
+Qed.
+
+Lemma skipn_cons_nth {A} (d : A) (l : list A) i : (i < length l)%nat -> skipn i l = nth i l d :: skipn (S i) l.
+Proof.
+  revert l. induction i as [|i IH]; intros [|x l] H; cbn [length] in H; try lia; [reflexivity|].
+  cbn [skipn nth]. rewrite (IH l) by lia. reflexivity.
+Qed.
+
+Lemma Forall_nth_u64 (w : list N) i : u64_list w -> (i < length w)%nat -> (nth i w 0%N <= MaxU64)%N.
+Proof. intros H Hi. unfold u64_list in H. rewrite Forall_forall in H. apply H. apply nth_In. exact Hi. Qed.
+
+Lemma window_Sum_loop (w : window) : u64_list w -> Z.of_nat (8 * length w) < 2 ^ 63 ->
+  forall j i acc, (i + j = length w)%nat -> (acc <= MaxU64)%N ->
+  go_for (go_range (Z.of_nat i) (Z.of_nat (i + j)))
+    (fun (i : Z) (st' : Z * option go_error) =>
+       let '(sum, overflow) := st' in
+       if go_slice_ok (wrap_i64 (8 * i)) (go_len (win_bytes w)) (go_len (win_bytes w))
+          && (8 <=? go_len (go_slice (win_bytes w) (wrap_i64 (8 * i)) (go_len (win_bytes w))))
+       then
+         let '(sum0, overflow0) :=
+           safemath_add E_safemath_ErrOverflow 64 sum
+             (be_uint64 (go_slice (win_bytes w) (wrap_i64 (8 * i)) (go_len (win_bytes w)))) in
+         if negb (is_nil overflow0) then Return (Some 18446744073709551615) else Next (sum0, overflow0)
+       else Return None)
+    (Z.of_N acc, None)
+  = match wsum_opt (skipn i w) acc with
+    | Some s => Next (Z.of_N s, None)
+    | None => Return (Some 18446744073709551615)
+    end.
+Proof.
+  intros Hu Hlen j. induction j as [|j IH]; intros i acc Hij Hacc.
+  - rewrite go_range_nil by lia. rewrite skipn_all2 by lia. reflexivity.
+  - rewrite go_range_cons by lia. cbn [go_for].
+    assert (Hi : (i < length w)%nat) by lia.
+    rewrite wrap_i64_small by (unfold in_i64; lia).
+    replace (8 * Z.of_nat i) with (Z.of_nat (8 * i)) by lia.
+    rewrite go_slice_win. rewrite (skipn_cons_nth 0%N w i Hi). rewrite win_bytes_cons.
+    match goal with |- context [if (?a && ?b) then _ else Return None] => replace (a && b) with true end.
+    2:{ symmetry. unfold go_slice_ok, go_len. rewrite app_length, zs_be64_length, !win_bytes_length. lia. }
+    rewrite be_uint64_be64 by (apply Forall_nth_u64; assumption).
+    rewrite safemath_add_chk by (try assumption; apply Forall_nth_u64; assumption).
+    cbn [wsum_opt]. destruct (add_chk acc (nth i w 0%N)) as [s|] eqn:E; cbn [is_nil negb]; [|reflexivity].
+    replace (Z.of_nat i + 1) with (Z.of_nat (S i)) by lia.
+    replace (i + S j)%nat with (S i + j)%nat by lia.
+    apply IH; [lia | eapply add_chk_u64; exact E].
+Qed.
+
+Lemma window_Sum_equiv (w : window) : length w = 10%nat -> u64_list w ->
+  window_Sum (win_bytes w) = Some (Z.of_N (wsum w)).
+Proof.
+  intros Hl Hu. unfold window_Sum, wsum. cbv zeta.
+  pose proof (window_Sum_loop w Hu) as H. rewrite Hl in H.
+  specialize (H ltac:(cbn; lia) 10%nat 0%nat 0%N ltac:(lia) ltac:(unfold MaxU64; lia)).
+  change (Z.of_nat 0) with 0 in H. change (Z.of_nat (0 + 10)) with 10 in H. change (Z.of_N 0) with 0 in H.
+  rewrite H. change (skipn 0 w) with w. rewrite wsum_from_opt.
+  destruct (wsum_opt w 0%N); reflexivity.
+Qed.
+
+Lemma skipn_repeat {A} (a : A) n m : skipn n (repeat a m) = repeat a (m - n).
+Proof.
+  revert m. induction n as [|n IH]; intros m; [rewrite Nat.sub_0_r; reflexivity|].
+  destruct m as [|m]; [reflexivity|]. cbn [repeat skipn Nat.sub]. apply IH.
+Qed.
+
+Lemma firstn_repeat {A} (a : A) n m : (n <= m)%nat -> firstn n (repeat a m) = repeat a n.
+Proof.
+  revert m. induction n as [|n IH]; intros m H; [reflexivity|].
+  destruct m as [|m]; [lia|]. cbn [repeat firstn]. f_equal. apply IH. lia.
+Qed.
+
+Lemma win_bytes_zeros k : win_bytes (repeat 0%N k) = repeat 0 (8 * k).
+Proof.
+  induction k as [|k IH]; [reflexivity|].
+  cbn [repeat]. rewrite win_bytes_cons, IH. replace (8 * S k)%nat with (8 + 8 * k)%nat by lia.
+  rewrite repeat_app. reflexivity.
+Qed.
+
+Lemma roll_small (w : window) (k : nat) : length w = 10%nat -> (k <= 10)%nat ->
+  firstn 10 (skipn k w ++ zero_window) = skipn k w ++ repeat 0%N k.
+Proof.
+  intros Hl Hk. rewrite firstn_app, skipn_length, Hl.
+  rewrite firstn_all2 by (rewrite skipn_length; lia). f_equal.
+  unfold zero_window. rewrite firstn_repeat by lia. f_equal. lia.
+Qed.
+
+Lemma window_Roll_equiv (w : window) (r : N) : length w = 10%nat -> (r <= MaxU64)%N ->
+  window_Roll (win_bytes w) (Z.of_N r) = Some (win_bytes (roll w r)).
+Proof.
+  unfold MaxU64. intros Hl Hr. unfold window_Roll, roll, WindowSize. cbv zeta. rewrite Z.gtb_ltb.
+  destruct (Z.ltb_spec 10 (Z.of_N r)) as [H|H]; destruct (N.ltb_spec 10 r) as [H'|H']; try lia; [reflexivity|].
+  set (k := N.to_nat r). assert (Hk : (k <= 10)%nat) by lia.
+  replace (wrap_u64 (Z.of_N r * 8)) with (Z.of_nat (8 * k))
+    by (unfold wrap_u64, wrap_u; rewrite Z.mod_small by lia; lia).
+  rewrite go_slice_win. rewrite roll_small by assumption.
+  cond_true.
+  2:{ unfold go_slice_ok, go_len. change (go_zeros 80) with (repeat 0 80%nat). rewrite win_bytes_length, Hl, repeat_length. lia. }
+  f_equal. rewrite win_bytes_app, win_bytes_zeros.
+  unfold go_copy_at. change (go_zeros 80) with (repeat 0 80%nat). change (Z.to_nat 0) with 0%nat.
+  rewrite repeat_length. change (firstn 0 (repeat 0 80%nat)) with (@nil Z). rewrite app_nil_l, Nat.add_0_l, Nat.sub_0_r.
+  assert (HS : length (win_bytes (skipn k w)) = (8 * (10 - k))%nat)
+    by (rewrite win_bytes_length, skipn_length, Hl; reflexivity).
+  rewrite HS. rewrite Nat.min_r by lia. rewrite <- HS, firstn_all, HS. f_equal.
+  rewrite skipn_repeat. f_equal. lia.
+Qed.
+
+Lemma wupdate_app (pre post : list N) x v :
+  wupdate (pre ++ x :: post) (length pre) v = pre ++ sat_add x v :: post.
+Proof. induction pre as [|p pre IH]; [reflexivity|]. cbn [app length wupdate]. rewrite IH. reflexivity. Qed.
+
+Lemma split_at {A} (d : A) (l : list A) i : (i < length l)%nat ->
+  l = firstn i l ++ nth i l d :: skipn (S i) l.
+Proof. intros H. rewrite <- (skipn_cons_nth d l i H). symmetry. apply firstn_skipn. Qed.
+
+Lemma wupdate_split (w : list N) : forall slot v, (slot < length w)%nat ->
+  wupdate w slot v = firstn slot w ++ sat_add (nth slot w 0%N) v :: skipn (S slot) w.
+Proof.
+  induction w as [|a w IH]; intros slot v H; cbn [length] in H; [lia|].
+  destruct slot as [|slot]; [reflexivity|].
+  cbn [wupdate firstn nth skipn app]. f_equal. apply IH. lia.
+Qed.
+
+Lemma window_Update_equiv (w : window) (slot : nat) (v : N) :
+  (slot < length w)%nat -> Z.of_nat (8 * length w) < 2 ^ 63 -> u64_list w -> (v <= MaxU64)%N ->
+  window_Update (win_bytes w) (Z.of_nat (8 * slot)) (Z.of_N v) = Some (win_bytes (wupdate w slot v)).
+Proof.
+  intros Hs Hlen Hu Hv. unfold window_Update.
+  rewrite go_slice_win.
+  set (x := nth slot w 0%N). assert (Hx : (x <= MaxU64)%N) by (apply Forall_nth_u64; assumption).
+  rewrite (skipn_cons_nth 0%N w slot Hs). fold x. rewrite win_bytes_cons.
+  cond_true.
+  2:{ unfold go_slice_ok, go_len. rewrite app_length, zs_be64_length, !win_bytes_length. lia. }
+  cbv zeta. rewrite be_uint64_be64 by exact Hx. rewrite safemath_add_chk by assumption.
+  assert (Hput : forall t : N,
+    (if go_slice_ok (Z.of_nat (8 * slot)) (go_len (win_bytes w)) (go_len (win_bytes w))
+        && (8 <=? go_len (win_bytes w) - Z.of_nat (8 * slot))
+     then Some (be_put_uint 8 (win_bytes w) (Z.of_nat (8 * slot)) (Z.of_N t)) else None)
+    = Some (win_bytes (firstn slot w ++ t :: skipn (S slot) w))).
+  { intros t. cond_true.
+    2:{ unfold go_slice_ok, go_len. rewrite !win_bytes_length. lia. }
+    f_equal. unfold be_put_uint. rewrite Nat2Z.id. change (Z.to_nat 8) with 8%nat.
+    rewrite firstn_win. replace (8 * slot + 8)%nat with (8 * S slot)%nat by lia. rewrite skipn_win.
+    rewrite <- zs_be_enc. rewrite win_bytes_app, win_bytes_cons. reflexivity. }
+  rewrite (wupdate_split w slot v Hs). fold x. unfold sat_add.
+  destruct (add_chk x v) as [s|]; cbn [is_nil negb].
+  - apply Hput.
+  - change 18446744073709551615 with (Z.of_N MaxU64). apply Hput.
+Qed.
+
+Lemma window_Last_equiv (w : window) : length w = 10%nat -> u64_list w ->
+  window_Last (win_bytes w) = Some (Z.of_N (wlast w)).
+Proof.
+  intros Hl Hu. unfold window_Last, wlast.
+  change 72 with (Z.of_nat (8 * 9)). rewrite go_slice_win.
+  rewrite (skipn_cons_nth 0%N w 9) by lia. rewrite win_bytes_cons.
+  cond_true.
+  2:{ unfold go_slice_ok, go_len. rewrite app_length, zs_be64_length, !win_bytes_length. lia. }
+  rewrite be_uint64_be64 by (apply Forall_nth_u64; [assumption|lia]). reflexivity.
+Qed.
+
+(* ------------------------------------------------------------------ internal/fees/manager.go: computeNextPriceWindow *)
+Lemma In_firstn' {A} (x : A) n l : In x (firstn n l) -> In x l.
+Proof. intros H. rewrite <- (firstn_skipn n l). apply in_or_app. left. exact H. Qed.
+Lemma In_skipn' {A} (x : A) n l : In x (skipn n l) -> In x l.
+Proof. intros H. rewrite <- (firstn_skipn n l). apply in_or_app. right. exact H. Qed.
+
+Lemma roll_u64 (w : window) r : u64_list w -> u64_list (roll w r).
+Proof.
+  intros Hu. unfold roll, u64_list, zero_window.
+  destruct (WindowSize <? r)%N.
+  - apply Forall_forall. intros x Hx. apply repeat_spec in Hx. subst. unfold MaxU64. lia.
+  - apply Forall_forall. intros x Hx. apply In_firstn' in Hx. apply in_app_or in Hx. destruct Hx as [Hx|Hx].
+    + apply In_skipn' in Hx. unfold u64_list in Hu. rewrite Forall_forall in Hu. apply Hu. exact Hx.
+    + apply repeat_spec in Hx. subst. unfold MaxU64. lia.
+Qed.
+
+Lemma roll_len10 (w : window) r : length w = 10%nat -> length (roll w r) = 10%nat.
+Proof.
+  intros Hl. unfold roll, zero_window. destruct (WindowSize <? r)%N; [apply repeat_length|].
+  rewrite firstn_length, app_length, skipn_length, repeat_length. lia.
+Qed.
+
+Lemma wupdate_u64 (w : window) : forall s v, u64_list w -> u64_list (wupdate w s v).
+Proof.
+  induction w as [|a w IH]; intros s v Hu; [constructor|].
+  inversion_clear Hu as [|? ? Ha Hw]. destruct s as [|s]; cbn [wupdate].
+  - constructor; [apply sat_add_u64|exact Hw].
+  - constructor; [exact Ha|apply IH; exact Hw].
+Qed.
+
+Lemma wupdate_len (w : window) : forall s v, length (wupdate w s v) = length w.
+Proof. induction w as [|a w IH]; intros [|s] v; cbn [wupdate length]; try reflexivity. rewrite IH. reflexivity. Qed.
+
+Lemma ltb_N a b : (Z.of_N a <? Z.of_N b) = (a <? b)%N.
+Proof. destruct (Z.ltb_spec (Z.of_N a) (Z.of_N b)); destruct (N.ltb_spec a b); lia. Qed.
+Lemma gtb_N a b : (Z.of_N a >? Z.of_N b) = (b <? a)%N.
+Proof. rewrite Z.gtb_ltb. apply ltb_N. Qed.
+Lemma eqb_N a b : (Z.of_N a =? Z.of_N b) = (a =? b)%N.
+Proof. destruct (Z.eqb_spec (Z.of_N a) (Z.of_N b)); destruct (N.eqb_spec a b); lia. Qed.
+Lemma quot_N a b : Z.quot (Z.of_N a) (Z.of_N b) = Z.of_N (a / b).
+Proof.
+  destruct (N.eq_dec b 0) as [->|Hb]; [destruct a; reflexivity|].
+  rewrite Z.quot_div_nonneg by lia. symmetry. apply N2Z.inj_div.
+Qed.
+Lemma div_u64 a b : (a <= MaxU64)%N -> (a / b <= MaxU64)%N.
+Proof.
+  intros H. destruct (N.eq_dec b 0) as [->|Hb]; [replace (a / 0)%N with 0%N by (destruct a; reflexivity); unfold MaxU64; lia|].
+  pose proof (N.div_le_mono a MaxU64 b Hb H). pose proof (N.div_le_upper_bound MaxU64 b MaxU64 Hb).
+  assert (MaxU64 <= b * MaxU64)%N by nia. lia.
+Qed.
+
+Lemma safemath_sub_chk (e : go_error) a b : (a <= MaxU64)%N -> (b <= MaxU64)%N ->
+  safemath_sub e 64 (Z.of_N a) (Z.of_N b) =
+  match sub_chk a b with Some v => (Z.of_N v, None) | None => (0, Some e) end.
+Proof.
+  unfold safemath_sub, sub_chk, wrap_u, MaxU64. intros Ha Hb. rewrite ltb_N.
+  destruct (N.ltb_spec a b); destruct (N.leb_spec b a); try lia; [reflexivity|].
+  change (2 ^ 64) with 18446744073709551616. rewrite Z.mod_small by lia. f_equal. lia.
+Qed.
+
+Ltac u64s :=
+  first [ assumption | apply mul_div_u64 | apply div_u64; u64s
+        | eapply add_chk_u64; eassumption | eapply mul_chk_u64; eassumption
+        | unfold MaxU64 in *; lia ].
+
+Lemma sub_chk_u64 a b v : (a <= MaxU64)%N -> sub_chk a b = Some v -> (v <= MaxU64)%N.
+Proof. intros Ha H. apply sub_chk_Some in H. lia. Qed.
+
+Ltac fin :=
+  repeat (first
+    [ match goal with |- context [if (?a <? ?b)%N then _ else _] =>
+        lazymatch a with
+        | context [add_chk] => fail | context [mul_chk] => fail | context [sub_chk] => fail
+        | _ => destruct (a <? b)%N eqn:?
+        end
+      end
+    | rewrite safemath_add_chk by u64s
+    | rewrite safemath_mul_chk by u64s
+    | rewrite safemath_sub_chk by u64s
+    | progress rewrite ?ltb_N, ?quot_N
+    | match goal with |- context [match add_chk ?a ?b with _ => _ end] => destruct (add_chk a b) eqn:? end
+    | match goal with |- context [match mul_chk ?a ?b with _ => _ end] => destruct (mul_chk a b) eqn:? end
+    | match goal with |- context [match sub_chk ?a ?b with _ => _ end] => destruct (sub_chk a b) eqn:? end
+    | progress cbn [is_nil negb]
+    | progress cbv beta iota ]);
+  try reflexivity; try congruence.
+
+Lemma ifees_computeNextPriceWindow_equiv (w : window) (pc pp target denom minp since : N) :
+  length w = 10%nat -> u64_list w ->
+  (pc <= MaxU64)%N -> (pp <= MaxU64)%N -> (target <= MaxU64)%N -> (denom <= MaxU64)%N -> (minp <= MaxU64)%N ->
+  (since <= MaxU64)%N -> (0 < denom)%N ->
+  ifees_computeNextPriceWindow (win_bytes w) (Z.of_N pc) (Z.of_N pp) (Z.of_N target) (Z.of_N denom)
+                               (Z.of_N minp) (Z.of_N since)
+  = Some (Z.of_N (fst (compute_next_price_window w pc pp target denom minp since)),
+          win_bytes (snd (compute_next_price_window w pc pp target denom minp since))).
+Proof.
+  intros Hl Hu Hpc Hpp Htg Hdn Hmp Hsi Hd0.
+  unfold ifees_computeNextPriceWindow, compute_next_price_window. cbn [fst snd].
+  rewrite window_Roll_equiv by assumption.
+  set (rw := roll w since).
+  assert (Hrl : length rw = 10%nat) by (apply roll_len10; exact Hl).
+  assert (Hru : u64_list rw) by (apply roll_u64; exact Hu).
+  set (nw := Fees.new_window w pc since).
+  assert (Hnl : length nw = 10%nat).
+  { unfold nw, Fees.new_window. fold rw. destruct (since <? WindowSize)%N; [rewrite wupdate_len|]; exact Hrl. }
+  assert (Hnu : u64_list nw).
+  { unfold nw, Fees.new_window. fold rw. destruct (since <? WindowSize)%N; [apply wupdate_u64|]; exact Hru. }
+  (* the part after the window update is a function [tail] of the window bytes *)
+  cbv beta iota.
+  match goal with
+  | |- (if _ then match _ with Some x => @?K x | None => None end else _) = _ => set (tail := K)
+  end.
+  match goal with |- (if _ then _ else ?B) = _ => change B with (tail (win_bytes rw)) end.
+  assert (Hwin : (if Z.of_N since <? 10 then
+                    match window_Update (win_bytes rw) (wrap_i64 (wrap_i64 (9 - wrap_i64 (Z.of_N since)) * 8)) (Z.of_N pc) with
+                    | Some x => tail x | None => None end
+                  else tail (win_bytes rw)) = tail (win_bytes nw)).
+  { unfold nw, Fees.new_window, WindowSize. fold rw.
+    destruct (Z.ltb_spec (Z.of_N since) 10) as [H|H]; destruct (N.ltb_spec since 10) as [H'|H']; try lia; [|reflexivity].
+    rewrite (wrap_i64_small (Z.of_N since)) by (unfold in_i64; lia).
+    rewrite (wrap_i64_small (9 - Z.of_N since)) by (unfold in_i64; lia).
+    rewrite wrap_i64_small by (unfold in_i64; lia).
+    replace ((9 - Z.of_N since) * 8) with (Z.of_nat (8 * (9 - N.to_nat since))) by lia.
+    rewrite window_Update_equiv by (try assumption; rewrite ?Hrl; cbn; lia). reflexivity. }
+  match type of Hwin with ?L = _ => match goal with |- ?G = _ => change G with L end end.
+  rewrite Hwin. clear Hwin. unfold tail. clear tail. cbv beta.
+  rewrite window_Sum_equiv by assumption.
+  assert (HT : (wsum nw <= MaxU64)%N) by (rewrite wsum_spec; lia).
+  set (T := wsum nw) in *. set (W := win_bytes nw).
+  unfold next_price, WindowSize, sat_add, sat_mul, sat_sub.
+  change 18446744073709551615 with (Z.of_N MaxU64). change 1 with (Z.of_N 1). change 0 with (Z.of_N 0).
+  change 10 with (Z.of_N 10).
+  rewrite !gtb_N, !ltb_N, !eqb_N.
+  destruct (N.eqb_spec denom 0) as [Hz|_]; [lia|]. cbn [negb].
+  destruct (N.ltb_spec target T) as [Hup|Hup].
+  - replace (wrap_u64 (Z.of_N T - Z.of_N target)) with (Z.of_N (T - target))
+      by (unfold wrap_u64, wrap_u, MaxU64 in *; rewrite Z.mod_small by lia; lia).
+    rewrite ifees_mulDiv_equiv by u64s. cbv beta iota. rewrite !quot_N, !ltb_N.
+    fin.
+  - destruct (N.ltb_spec T target) as [Hdown|Hdown]; [|fin].
+    replace (wrap_u64 (Z.of_N target - Z.of_N T)) with (Z.of_N (target - T))
+      by (unfold wrap_u64, wrap_u, MaxU64 in *; rewrite Z.mod_small by lia; lia).
+    rewrite ifees_mulDiv_equiv by u64s. cbv beta iota. rewrite !quot_N, !ltb_N.
+    fin.
+Qed.
+
 (* ------------------------------------------------------------------ summary *)
 Definition gen_tie_all :=
   (keys_Valid_equiv, keys_MaxChunks_equiv, keys_DecodeChunks_equiv, keys_numChunks_equiv, keys_NumChunks_equiv,
    keys_VerifyValue_equiv, keys_Verify_equiv, keys_Encode_equiv, keys_EncodeChunks_equiv,
    state_Permissions_Has_equiv, validitywindow_VerifyTimestamp_equiv, validitywindow_VerifyTimestamp_equiv_static,
    fees_Add_equiv, fees_MulSum_equiv, fees_Dimensions_CanAdd_equiv, fees_Dimensions_Greater_equiv,
-   metadata_HasConflictingPrefixes_equiv, ifees_mulDiv_equiv, keys_MaxChunks_equiv_units, keys_Valid_equiv_units).
+   metadata_HasConflictingPrefixes_equiv, ifees_mulDiv_equiv, keys_MaxChunks_equiv_units, keys_Valid_equiv_units,
+   window_Sum_equiv, window_Roll_equiv, window_Update_equiv, window_Last_equiv, ifees_computeNextPriceWindow_equiv).
 Print Assumptions gen_tie_all.
